@@ -375,6 +375,8 @@ def check_command(case, ctx):
             if geom is None or geom.is_empty:
                 return
             how = case["clip_as"]
+            if how == "bounds" and geom.geom_type in ("Point", "LineString", "MultiPolygon"):
+                how = "geojson"      # these cannot be written as four numbers
             if how == "bounds" or geom.geom_type not in ("Polygon", "MultiPolygon", "Point", "LineString"):
                 minx, miny, maxx, maxy = geom.bounds
                 arg = f"{minx!r},{miny!r}, {maxx!r} ,{maxy!r}"
@@ -557,7 +559,7 @@ def geojson_cases(draw):
 SUBS = [
     Sub("bounds_grammar", lambda tier: bounds_strings(), check_bounds, quick=1500, thorough=20000),
     Sub("geojson_arguments", lambda tier: geojson_cases(), check_geojson_argument, quick=40, thorough=200),
-    Sub("clip_command", lambda tier: command_cases("clip"), check_command, quick=50, thorough=250),
+    Sub("clip_command", lambda tier: command_cases("clip"), check_command, quick=80, thorough=300),
     Sub("extract_points_command", lambda tier: command_cases("extract-points"), check_command,
         quick=70, thorough=300),
     Sub("export_geometry_command", lambda tier: command_cases("export-geometry"), check_command,
